@@ -65,10 +65,22 @@ def replay_defrag_case(case):
             dst = os.path.join(tmp, "copy.tdms")
             TdmsWriter.defragment(io.BytesIO(e.data), dst, index_file=index)
             copy_bytes = open(dst, "rb").read()
+            if index:
+                # the copy must read the same through its own index file (discovered beside it)
+                via_index = proj.project_file(TdmsFile.read(dst, raw_timestamps=True))
+                plain = proj.project_file(TdmsFile.read(io.BytesIO(copy_bytes), raw_timestamps=True))
+                if via_index != plain:
+                    fails.append(({"kind": "copy-index-unusable"}, dict(bundle, with_index=via_index, without=plain)))
         else:
             out = io.BytesIO()
-            TdmsWriter.defragment(io.BytesIO(e.data), out, index_file=io.BytesIO() if index else False)
+            iout = io.BytesIO() if index else False
+            TdmsWriter.defragment(io.BytesIO(e.data), out, index_file=iout)
             copy_bytes = out.getvalue()
+            if index:
+                from . import parser as _p
+                ie, de = _p.parse(iout.getvalue(), index=True), _p.parse(copy_bytes)
+                if [(x.get("meta_crc"), x.get("next_off")) for x in ie] != [(x.get("meta_crc"), x.get("next_off")) for x in de]:
+                    fails.append(({"kind": "copy-index-unusable", "target": "stream"}, dict(bundle)))
     except Exception as ex:  # noqa
         untyped = any(t is None for t in tys.values())
         lens = _as_dict(rec["view"]["len"])
